@@ -35,6 +35,10 @@ pub fn runner(prop: &str) -> Option<fn(&str, u64, usize, Tier) -> RunReport> {
         "C08" => Some(crate::props3::run_c08),
         "C09" => Some(crate::props3::run_c09),
         "C10" => Some(crate::props3::run_c10),
+        "C13" => Some(crate::props4::run_c13),
+        "C14" => Some(crate::props4::run_c14),
+        "C18" => Some(crate::props4::run_c18),
+        "C07" => Some(crate::props4::run_c07),
         _ => None,
     }
 }
@@ -147,6 +151,23 @@ pub fn run_crash(prop: &str, seed: u64, index: usize, tier: Tier) -> RunReport {
                 prop: prop.to_string(), clause: f.clause.clone(), detail: f.detail.clone(), case: case.clone(),
                 fault: Fault::Crash { at: crash_point_of(&d, p, None), second: None, cont: o.cont_used.clone() },
             });
+        }
+        // C12: power loss under Always(FlushAndFsync)
+        if prop == "C12" && p.b < d.steps.len() && matches!(d.steps[p.b].policy, crate::model::Policy::Always { fsync: true }) {
+            for k in 2..4u64 {
+                let mseed = (mix(&[seed, p.idx as u64, p.byte.map(|b| b as u64 + 1).unwrap_or(0), k]) & !3) | k;
+                let pimage = powerloss_image(&fs.trace, &fs.bases[0].1, p.idx, p.byte, mseed);
+                rep.evaluations += 1;
+                rep.count("fault_power_loss", 1);
+                if let Ok((_w, obs)) = crate::crash::recover(&pimage, &d.names, d.steps[p.b].policy, &case.knobs) {
+                    if let Some(msg) = crate::crash::batch_atomicity(&d, p.b, &obs) {
+                        rep.found.push(Found {
+                            prop: prop.to_string(), clause: "batch-torn-by-power-loss".to_string(), detail: msg, case: case.clone(),
+                            fault: Fault::Crash { at: crash_point_of(&d, p, Some(mseed)), second: None, cont: vec![] },
+                        });
+                    }
+                }
+            }
         }
         // second crash inside the recovery's own writes
         if prop == "C02" && !o.recovery_mutations.is_empty() && o.failures.is_empty() {
